@@ -157,6 +157,12 @@ Theorem C05_crash_no_orphans_partial :
        (fstt r = FVolatile \/ fstt r = FBuilt \/ fstt r = FOutdated) /\ find_file (fl r) s' = None).
 Proof. exact crash_no_orphans_partial. Qed.
 
+(* a kill after the files were removed (before build_completed commits): the restarted cleanup
+   removes nothing more and leaves nothing behind -- for ALL states, optional sets and disks *)
+Theorem C05_crash_no_orphans_after_removal :
+  forall opt x, no_orphans_at W3 opt x.
+Proof. exact crash_no_orphans_W3. Qed.
+
 (* ---- non-vacuity ---------------------------------------------------------------------------- *)
 (* every prefix of the two witness histories satisfies the hypotheses used above, opens without
    error in strict mode, and the histories contain RUNNING and CHECKING crash states *)
